@@ -85,7 +85,13 @@ def _replay_get_sys_path(inp):
                                                 add_init_paths=inp.get('add_init_paths', True)))
     finally:
         pm.discover_buildout_paths = old
+    try:
+        base_after = list(pr._get_base_sys_path(st))
+    except Exception as e:
+        base_after = repr(e)
     env = {'self': pr, 'inference_state': st, 'add_parent_paths': True, 'add_init_paths': True, 'Path': Path,
+           'BASE_AFTER': base_after, 'BASE_EXPECTED': [p for p in inp['env_sys_path'] if p != ''] if '' in inp['env_sys_path']
+           else list(inp['env_sys_path']),
            'ADDED_BEFORE': list(inp['added']), 'SYS_PATH_BEFORE': None if inp['sys_path'] is None else list(inp['sys_path'])}
     return env, out
 
@@ -138,6 +144,8 @@ _get_sys_path = Contract(
         # computing the effective path changes nothing in the project's configuration (a second Script with the same
         # Project gets the same path)
         'list(self.added_sys_path) == ADDED_BEFORE',
+        # ... nor the (memoised) base path, which is also the whitelist for importing compiled modules (C12)
+        'BASE_AFTER == BASE_EXPECTED',
         '(None if self._sys_path is None else list(self._sys_path)) == SYS_PATH_BEFORE',
     ],
 )
